@@ -201,17 +201,18 @@ func (idx *IVFPQIndex) Train(vectors []VectorNode) error {
 		}
 	}
 
-	// Extract raw vectors
-	rawVectors := make([][]float32, len(vectors))
-	for i, v := range vectors {
-		rawVectors[i] = v.Vector()
+	// Train on the vectors as they will be stored (see IVFIndex.Train)
+	rawVectors, err := preprocessedTrainingSample(vectors, idx.distance)
+	if err != nil {
+		return err
 	}
 
-	// STEP 1: Train IVF (k-means clustering on original vectors)
+	// STEP 1: Train IVF (k-means clustering on the stored form of the vectors)
 	centroids, _ := KMeans(rawVectors, idx.nlist, idx.distance, 20)
 	if centroids == nil {
 		return fmt.Errorf("IVF k-means failed")
 	}
+	normalizeCentroids(centroids, idx.distance)
 	idx.centroids = centroids
 
 	// STEP 2: Assign vectors to nearest centroids
